@@ -122,7 +122,7 @@ func (e *eccKeyAgreement) processClientKeyExchange(hs *serverHandshakeState, ckx
 	}
 	config := hs.c.config
 
-	if len(ckx.ciphertext) == 0 {
+	if len(ckx.ciphertext) < 2 {
 		return nil, errClientKeyExchange
 	}
 
@@ -134,7 +134,8 @@ func (e *eccKeyAgreement) processClientKeyExchange(hs *serverHandshakeState, ckx
 	}
 
 	cipher := ckx.ciphertext[2:]
-	if cipher[0] != 0x30 {
+	// ASN.1 SEQUENCE: tag(1B) + length(2B) 至少3字节
+	if len(cipher) < 3 || cipher[0] != 0x30 {
 		return nil, errors.New("dtlcp: bad client key exchange ciphertext format")
 	}
 
